@@ -56,15 +56,34 @@ fn cfg() -> FileLogWriterConfig {
     )
 }
 
-// @verif prop=C01,C06,C19 tier=probe timeout=600 bounds=known-index<200-or-unknown(highest-rotated-index<200-or-none),current-file-present/absent,rename-ok/ENOENT/EACCES
-// index_for_rcurrent: the closed rCURRENT file is renamed to exactly r<index> where index is the remembered one, or (at start) one above the highest existing rotated number (0 if none) - never an existing number; the next index is index+1 iff the rename happened; a missing current file is not an error; any other rename failure is returned as Err and leaves the index unchanged.
-#[kani::proof]
-#[kani::unwind(16)]
-#[kani::stub(verif_support::reexp::catch_unwind, verif_support::stub_cu)]
-#[kani::stub(get_highest_index, stub_highest)]
-#[kani::stub(number_infix, stub_number_infix)]
-#[kani::stub(std::fs::rename, stub_rename)]
-fn c06_index_for_rcurrent() {
+// as_pathbuf by an injective short model: "C" for the rCURRENT infix, "R<last byte of the infix>"
+// otherwise (the real concatenation is decided in c16_as_pathbuf_parts).
+fn stub_as_pathbuf(_fs: &FileSpec, o_infix: Option<&str>) -> PathBuf {
+    let b = o_infix.unwrap_or("").as_bytes();
+    if b == b"rCURRENT" {
+        PathBuf::from("C")
+    } else {
+        let last = if b.is_empty() { b'?' } else { b[b.len() - 1] };
+        let nb = [b'R', last];
+        PathBuf::from(vs::str_from(&nb))
+    }
+}
+fn stub_rename2<P: AsRef<Path>, Q: AsRef<Path>>(from: P, to: Q) -> std::io::Result<()> {
+    vs::cell_inc(4);
+    let f = from.as_ref().as_os_str().as_bytes();
+    let t = to.as_ref().as_os_str().as_bytes();
+    vs::cell_set(5, if f == b"C" { 1 } else { 0 });
+    if t.len() == 2 && t[0] == b'R' {
+        vs::cell_set(7, 1);
+        vs::cell_set(6, t[1] as u64);
+    }
+    match vs::cell_get(2) {
+        0 => Ok(()),
+        e => Err(std::io::Error::from_raw_os_error(e as i32)),
+    }
+}
+// outcome of the rename is concrete per instance: 0 = succeeds, 2 = ENOENT (no current file), 13 = EACCES
+fn index_for_rcurrent_case(errno: u64) {
     vs::link_all();
     let known: bool = kani::any();
     let idx: u32 = kani::any();
@@ -72,15 +91,6 @@ fn c06_index_for_rcurrent() {
     let highest_plus1: u64 = kani::any();
     kani::assume(highest_plus1 <= 200);
     vs::cell_set(0, highest_plus1);
-    let have_current: bool = kani::any();
-    vs::cell_set(1, if have_current { 1 } else { 0 });
-    let fault: u8 = kani::any();
-    kani::assume(fault < 3);
-    let errno = match fault {
-        0 => 0,
-        1 => 13, // EACCES
-        _ => 5,  // EIO
-    };
     vs::cell_set(2, errno);
     let rotate: bool = kani::any();
     let config = cfg();
@@ -92,25 +102,47 @@ fn c06_index_for_rcurrent() {
         assert!(matches!(r, Ok(v) if v as u64 == start));
     } else {
         assert!(vs::cell_get(4) == 1);
-        // from = the CURRENT path, to = family name with the rendering of `start`
+        // from = the CURRENT path, to = the family name carrying the rendering of `start`
         assert!(vs::cell_get(5) == 1 && vs::cell_get(7) == 1);
         assert!(vs::cell_get(3) == start);
         assert!(vs::cell_get(6) == (b'0' + (start % 64) as u8) as u64);
-        if errno != 0 {
-            assert!(r.is_err());
-        } else if have_current {
+        if errno == 0 {
             assert!(matches!(r, Ok(v) if v as u64 == start + 1));
-        } else {
+        } else if errno == 2 {
             assert!(matches!(r, Ok(v) if v as u64 == start));
+        } else {
+            assert!(r.is_err());
         }
     }
-    kani::cover!(rotate && !known && highest_plus1 == 0 && have_current, "first rotation in an empty directory -> r00000");
-    kani::cover!(rotate && !known && highest_plus1 == 7 && have_current, "restart with rotated files up to 6 -> r00007");
-    kani::cover!(rotate && errno == 13, "rename fails with EACCES");
-    kani::cover!(rotate && errno == 0 && !have_current, "current file missing: not an error");
+    kani::cover!(rotate && !known && highest_plus1 == 0, "first rotation in an empty directory -> r00000");
+    kani::cover!(rotate && !known && highest_plus1 == 7, "restart with rotated files up to 6 -> r00007");
+    kani::cover!(rotate && known, "rotation with a remembered index");
     std::mem::forget(config);
     std::mem::forget(r);
 }
+macro_rules! ifr_instance {
+    ($name:ident, $errno:expr) => {
+        #[kani::proof]
+        #[kani::unwind(16)]
+        #[kani::stub(verif_support::reexp::catch_unwind, verif_support::stub_cu)]
+        #[kani::stub(get_highest_index, stub_highest)]
+        #[kani::stub(number_infix, stub_number_infix)]
+        #[kani::stub(crate::FileSpec::as_pathbuf, stub_as_pathbuf)]
+        #[kani::stub(std::fs::rename, stub_rename2)]
+        fn $name() {
+            index_for_rcurrent_case($errno);
+        }
+    };
+}
+// @verif prop=C06,C01 tier=quick timeout=600 bounds=index-known(<200)-or-derived-from-highest-rotated-index(<200-or-none),rename-succeeds
+// index_for_rcurrent: the closed rCURRENT file is renamed to exactly r<index>, index = the remembered one or (at start) one above the highest existing rotated number (0 if none) - never an existing number; the next index is index+1.
+ifr_instance!(c06_index_for_rcurrent_ok, 0);
+// @verif prop=C06,C19 tier=quick timeout=600 bounds=same,rename-reports-ENOENT(no-current-file)
+// ... a missing current file is not an error and does not consume an index.
+ifr_instance!(c06_index_for_rcurrent_enoent, 2);
+// @verif prop=C19,C06 tier=quick timeout=600 bounds=same,rename-fails-with-EACCES
+// ... any other rename failure is returned as Err (so that the rotation stops before the current file is re-opened and truncated).
+ifr_instance!(c19_index_for_rcurrent_eacces, 13);
 
 // @verif prop=C16,C06 tier=probe timeout=600 bounds=idx<100000-symbolic
 // number_infix(idx) == "r" followed by idx as 5 zero-padded decimal digits (injective for idx < 100000; ordering of the names = ordering of the numbers).
@@ -136,3 +168,104 @@ fn c16_number_infix() {
     kani::cover!(idx == 99_999, "r99999");
     std::mem::forget(s);
 }
+
+// ------------------------------------------------------------------------------------------------
+// get_highest_index: listing by contract (cell 8 selects the directory content, cell 9 the digit)
+fn hi_name(buf: &mut [u8; 24], prefix: &[u8], d: u8, tail: &[u8]) -> usize {
+    let mut n = 0;
+    let mut i = 0;
+    while i < prefix.len() {
+        buf[n] = prefix[i];
+        n += 1;
+        i += 1;
+    }
+    buf[n] = d;
+    n += 1;
+    i = 0;
+    while i < tail.len() {
+        buf[n] = tail[i];
+        n += 1;
+        i += 1;
+    }
+    n
+}
+fn stub_listing_hi(_fs: &FileSpec, _f: &InfixFilter) -> Vec<PathBuf> {
+    let d = vs::cell_get(9) as u8;
+    let mut buf = [0u8; 24];
+    let mut v = Vec::with_capacity(2);
+    match vs::cell_get(8) {
+        0 => {}
+        1 => {
+            let n = hi_name(&mut buf, b"d/b_r0000", d, b".l");
+            v.push(PathBuf::from(vs::str_from(&buf[..n])));
+        }
+        2 => {
+            let n = hi_name(&mut buf, b"d/my_r_r0000", d, b".l");
+            v.push(PathBuf::from(vs::str_from(&buf[..n])));
+        }
+        3 => {
+            let n = hi_name(&mut buf, b"d/b_r0000", d, b".l.gz");
+            v.push(PathBuf::from(vs::str_from(&buf[..n])));
+        }
+        5 => {
+            // a foreign file with a short number-like infix that the Numbers filter accepts
+            let n = hi_name(&mut buf, b"d/b_r1", d, b".l");
+            v.push(PathBuf::from(vs::str_from(&buf[..n])));
+        }
+        _ => {
+            // two files: the higher number decides, whatever the order
+            let n = hi_name(&mut buf, b"d/b_r0000", d, b".l");
+            v.push(PathBuf::from(vs::str_from(&buf[..n])));
+            v.push(PathBuf::from("d/b_r00003.l"));
+        }
+    }
+    v
+}
+fn highest_case(dir_kind: u64, basename: &str) {
+    vs::link_all();
+    // the digit is concrete: with a symbolic digit std's two-way string searcher (rsplit("_r")) and
+    // the integer parser over symbolic bytes did not finish in 10 min
+    let d: u8 = b'7';
+    vs::cell_set(8, dir_kind);
+    vs::cell_set(9, d as u64);
+    let spec = FileSpec::default().directory("d").basename(basename).suffix("l").suppress_timestamp();
+    let r = get_highest_index(&spec);
+    let dv = (d - b'0') as u32;
+    match dir_kind {
+        0 => assert!(r.is_none()),
+        4 => assert!(r == Some(if dv > 3 { dv } else { 3 })),
+        5 => assert!(r == Some(10 + dv)),
+        _ => assert!(r == Some(dv)),
+    }
+    kani::cover!(true, "executed");
+    std::mem::forget(spec);
+}
+macro_rules! highest_instance {
+    ($name:ident, $kind:expr, $basename:expr) => {
+        #[kani::proof]
+        #[kani::unwind(20)]
+        #[kani::stub(verif_support::reexp::catch_unwind, verif_support::stub_cu)]
+        #[kani::stub(crate::writers::file_log_writer::state::list_and_cleanup::list_of_log_and_compressed_files, stub_listing_hi)]
+        fn $name() {
+            highest_case($kind, $basename);
+        }
+    };
+}
+// @verif prop=C06 tier=quick timeout=600 bounds=empty-listing
+// get_highest_index: no rotated file -> None (numbering starts at 0).
+highest_instance!(c06_highest_none, 0, "b");
+// @verif prop=C06 tier=quick timeout=600 bounds=one-plain-rotated-file-b_r0000<D>.l,D=7
+// get_highest_index reads the number of a plain rotated file, so a restart continues above it and never re-uses an existing number.
+highest_instance!(c06_highest_plain, 1, "b");
+// @verif prop=C06 tier=quick timeout=600 bounds=basename-containing-"_r"(my_r),file-my_r_r0000<D>.l
+// ... also when the configured name parts themselves contain "_r".
+highest_instance!(c06_highest_basename_with_r, 2, "my_r");
+// @verif prop=C10,C06 tier=quick timeout=600 bounds=foreign-file-b_r1<D>.l(short-number-like-infix)
+// ... a pre-existing file with a short number-like infix (b_r1<D>.l passes the Numbers filter) is read without panic.
+highest_instance!(c10_highest_short_infix, 5, "b");
+// @verif prop=C06 tier=quick timeout=600 bounds=two-files(r0000<D>,r00003)
+// ... the maximum over several files.
+highest_instance!(c06_highest_two, 4, "b");
+// @verif prop=C06 tier=quick timeout=600 bounds=one-compressed-rotated-file-b_r0000<D>.l.gz replay=highest_index_gz
+// ... and the number of a *compressed* rotated file (b_r0000<D>.l.gz): a directory that only holds compressed files must not make the numbering start again below them.
+highest_instance!(c06_highest_compressed, 3, "b");
